@@ -100,6 +100,12 @@ func (p Proof) Prove(key string) error {
 				continue
 			}
 
+			// NOTE the first level should be proved by the node of the key
+			// itself; the hash of the sibling node does not bind the key.
+			if i == 0 && parents[j].Key() != key {
+				continue
+			}
+
 			switch h, err := nodeHash(parents[j], nodes[bi], nodes[bi+1]); {
 			case err != nil:
 				return e.Wrap(err)
